@@ -56,6 +56,7 @@ var alphabet = []op{
 	{Kind: "regpipe", Type: "t1", ID: "p1", IDs: []string{"f", "s2"}, Ver: "s2"}, // ill-formed (no formatter): must fail and never be seen by a Send
 	{Kind: "rmpipe", Type: "t1", ID: "p1"},
 	{Kind: "rmpipenodes", Type: "t1", ID: "p1"},
+	{Kind: "rmpipe", Type: "t1", ID: "ghost"}, // an id that is not registered: accepted, and must change nothing
 	{Kind: "regnode", ID: "x", Ver: "x2"},
 	{Kind: "regnode", ID: "m", Ver: "m2"},
 	{Kind: "rmnode", ID: "x"},
@@ -302,6 +303,16 @@ func body(p program) func() string {
 			})
 		}
 		vrt.Join()
+		final := w.finalState()
+		// after quiescence: one probe Send per event type. Every registry call has returned before it
+		// starts, so it must deliver exactly to the pipelines some real-time-consistent order leaves behind.
+		for _, k := range []int{0, 1} {
+			c := &call{Op: alphabet[k], Thread: len(p.Threads)}
+			c.CallT = clk.tick()
+			w.apply(c.Op, c)
+			c.RetT = clk.tick()
+			calls = append(calls, c)
+		}
 		for _, c := range calls {
 			if c.Op.Kind == "send" {
 				c.Delivered = deliveriesOf(w.log, c)
@@ -310,7 +321,6 @@ func body(p program) func() string {
 		if msg := checkDeliveries(calls); msg != "" {
 			vrt.Fail("%s", msg)
 		}
-		final := w.finalState()
 		if msg := checkQuiescent(p, calls, final); msg != "" {
 			vrt.Fail("%s", msg)
 		}
@@ -573,7 +583,7 @@ func main() {
 			ex := &vrt.Explorer{Bound: p.Bound, Body: body(p)}
 			return hk.ExploreJob(prop, job, deadline, ex, p.Name)
 		},
-		Rule: "programs of 2 threads x 1 call (all pairs), 3 threads x 1 call and 2 threads x 2 calls over a 17-call Broker alphabet on a fixture registry; every schedule within the preemption bound is executed on the real Broker under the Go race detector (happens-before edges of the modelled primitives re-created, scheduler hand-offs invisible); oracles: race/panic/deadlock per execution, per-pipeline delivery counts against the call/return intervals, quiescent private state + return values equal to a sequential order consistent with real-time order",
+		Rule: "programs of 2 threads x 1 call (all pairs), 3 threads x 1 call and 2 threads x 2 calls over a 22-call Broker alphabet on a fixture registry; every schedule within the preemption bound is executed on the real Broker under the Go race detector (happens-before edges of the modelled primitives re-created, scheduler hand-offs invisible); oracles: race/panic/deadlock per execution, per-pipeline delivery counts against the call/return intervals (for the concurrent Sends and for one probe Send per event type after quiescence), quiescent private state + return values equal to a sequential order consistent with real-time order",
 		Assumptions: []string{
 			"race detection is happens-before based on the explored synchronisation orders; it has no false positives",
 			"bounds: <=3 threads, <=2 calls per thread, preemption bound 2/1 (quick) 3/2 (thorough); 2..8 goroutines of the statement are covered up to 3",
